@@ -28,6 +28,8 @@ pub struct LexSpec {
 pub const L_A: LexSpec = LexSpec { trie: &gen::LEX_A_TRIE, post: &gen::LEX_A_POST, nwords: gen::LEX_A_NWORDS, surfs: &gen::LEX_A_SURF };
 pub const L_B: LexSpec = LexSpec { trie: &gen::LEX_B_TRIE, post: &gen::LEX_B_POST, nwords: gen::LEX_B_NWORDS, surfs: &gen::LEX_B_SURF };
 pub const L_B_AB: LexSpec = LexSpec { trie: &gen::LEX_B_AB_TRIE, post: &gen::LEX_B_AB_POST, nwords: gen::LEX_B_AB_NWORDS, surfs: &gen::LEX_B_AB_SURF };
+pub const L_AB_AB: LexSpec = LexSpec { trie: &gen::LEX_AB_AB_TRIE, post: &gen::LEX_AB_AB_POST, nwords: gen::LEX_AB_AB_NWORDS, surfs: &gen::LEX_AB_AB_SURF };
+pub const L_A_AB_AB: LexSpec = LexSpec { trie: &gen::LEX_A_AB_AB_TRIE, post: &gen::LEX_A_AB_AB_POST, nwords: gen::LEX_A_AB_AB_NWORDS, surfs: &gen::LEX_A_AB_AB_SURF };
 pub const L_AB: LexSpec = LexSpec { trie: &gen::LEX_AB_TRIE, post: &gen::LEX_AB_POST, nwords: gen::LEX_AB_NWORDS, surfs: &gen::LEX_AB_SURF };
 pub const L_A_AB: LexSpec = LexSpec { trie: &gen::LEX_A_AB_TRIE, post: &gen::LEX_A_AB_POST, nwords: gen::LEX_A_AB_NWORDS, surfs: &gen::LEX_A_AB_SURF };
 pub const L_A_B_AB: LexSpec = LexSpec { trie: &gen::LEX_A_B_AB_TRIE, post: &gen::LEX_A_B_AB_POST, nwords: gen::LEX_A_B_AB_NWORDS, surfs: &gen::LEX_A_B_AB_SURF };
